@@ -7,14 +7,14 @@ from vlib import *
 ALL_RICH = ["sub", "bind", "unsub", "unbind", "write", "read", "entrem", "entadd", "discover", "disconnect",
             "lsub", "lbind", "lunsub", "lunbind", "listsubs", "listbinds"]
 ALL_COMPS = ["out", "ev", "ret", "conn", "known", "subs", "binds", "csub", "cbind", "data",
-             "panic", "dupout", "dupev", "ids", "resolve", "tree", "cbf", "reqs", "dupcb", "ucs", "hasuc", "late"]
+             "panic", "dupout", "dupev", "ids", "resolve", "tree", "cbf", "reqs", "dupcb", "ucs", "hasuc", "late", "ucsnap", "announce"]
 
 COMP_MEANING = {
     "out": "replies/results/notifications written per connection", "ev": "events published", "ret": "API return",
     "conn": "connected devices", "known": "remote entity tree", "subs": "subscription registry", "binds": "binding registry",
     "csub": "client-side subscription bookkeeping", "cbind": "client-side binding bookkeeping", "data": "local function data",
     "panic": "no panic", "dupout": "no duplicate datagram", "dupev": "no duplicate event", "ids": "registry ids distinct",
-    "resolve": "device resolvable by SKI/address iff connected", "late": "nothing written to a connection after the call had returned"}
+    "resolve": "device resolvable by SKI/address iff connected", "late": "nothing written to a connection after the call had returned", "ucsnap": "use-case data sets handed out earlier unchanged", "announce": "announced operations = configured operations"}
 
 
 def consts(peers=("p1", "p2"), acts=(), rich=(), maxval=1, devs=(), ghost=0, tiny=(), maxreq=3):
